@@ -74,6 +74,8 @@ fn executable(o: &Ord_) -> u128 {
 struct Scenario {
     name: String,
     orders: Vec<Ord_>,
+    /// applied after the k-th order was added: (k, id, same-price amendments to the quantity the order already shows, then cancel it?)
+    churn: Vec<(usize, u64, u64, bool)>,
     takers: Vec<u64>,
 }
 
@@ -86,29 +88,54 @@ fn scenarios(tier: &str) -> Vec<Scenario> {
     v.push(Scenario {
         name: format!("{n} one-lot orders followed by a ten-lot order; takers {} then 1000", n + 4),
         orders,
+        churn: vec![],
         takers: vec![n + 4, 1000],
     });
     // one order re-queued again and again
     v.push(Scenario {
         name: "iceberg 1 / 70 000 and a 5-lot order; takers 70 003 then 1000".into(),
         orders: vec![iceberg(1, 1, 70_000), std_order(2, 5, 9)],
+        churn: vec![],
         takers: vec![70_003, 1000],
     });
     v.push(Scenario {
         name: "reserve 1 / 70 000 (replenish 1) and a 5-lot order; takers 70 004 then 1000".into(),
         orders: vec![reserve(1, 1, 70_000, 1), std_order(2, 5, 9)],
+        churn: vec![],
         takers: vec![70_004, 1000],
     });
     v.push(Scenario {
         name: "iceberg 1 / 1 200 000; takers 1 200 000 then 1000".into(),
         orders: vec![iceberg(1, 1, 1_200_000)],
+        churn: vec![],
         takers: vec![1_200_000, 1000],
+    });
+    // a level that is amended a lot and never matched: tens of thousands of stale tickets in front of live orders
+    let k = if tier == "quick" { 70_000u64 } else { 140_000 };
+    v.push(Scenario {
+        name: format!("a 1-lot order amended {k} times (same quantity), then a 5-lot order; takers 6 then 1000"),
+        orders: vec![std_order(1, 1, 5), std_order(2, 5, 9)],
+        churn: vec![(1, 1, k, false)],
+        takers: vec![6, 1000],
+    });
+    v.push(Scenario {
+        name: format!("a 1-lot and a 2-lot order, the first amended {k} times and cancelled, then a 5-lot order; takers 3 then 1000"),
+        orders: vec![std_order(1, 1, 5), std_order(3, 2, 6), std_order(2, 5, 9)],
+        churn: vec![(2, 1, k, true)],
+        takers: vec![3, 1000],
+    });
+    v.push(Scenario {
+        name: "three orders, the oldest amended 9 000 times; takers 10, 7, 1000".into(),
+        orders: vec![std_order(1, 10, 5), std_order(2, 7, 6), std_order(3, 5, 7)],
+        churn: vec![(3, 1, 9_000, false)],
+        takers: vec![10, 7, 1000],
     });
     if tier != "quick" {
         let n = 140_000u64;
         v.push(Scenario {
             name: format!("{n} one-lot orders; takers {} then {}", n / 2 + 1, n),
             orders: (0..n).map(|i| std_order(1000 + i, 1, 10 + i)).collect(),
+            churn: vec![],
             takers: vec![n / 2 + 1, n],
         });
     }
@@ -131,17 +158,64 @@ pub fn run(tier: &str) -> SweepOut {
             let generator = UuidGenerator::new(NS);
             let mut left: HashMap<u128, u128> = HashMap::new();
             let mut promised: u128 = 0;
-            for o in &sc.orders {
+            let mut cancelled = 0usize;
+            let mut cancelled_total: u128 = 0;
+            for (k, o) in sc.orders.iter().enumerate() {
                 level.add_order(*o);
                 left.insert(rec(o).id, o_tot(o));
                 promised += executable(o);
+                for (after, id, times, cancel) in &sc.churn {
+                    if *after != k + 1 {
+                        continue;
+                    }
+                    let Some(target) = sc.orders.iter().find(|x| same_id(o_id(x), oid(*id))) else { continue };
+                    for _ in 0..*times {
+                        let r = level.update_order(pricelevel::OrderUpdate::UpdateQuantity { order_id: oid(*id), new_quantity: o_vis(target) });
+                        if !matches!(upd_obs(&r), UpdObs::Order(_)) {
+                            msgs.push(format!("C07 a same-price amendment of resting order #{id} answered {:?}", upd_obs(&r)));
+                            break;
+                        }
+                    }
+                    if *cancel {
+                        let r = level.update_order(pricelevel::OrderUpdate::Cancel { order_id: oid(*id) });
+                        if !matches!(upd_obs(&r), UpdObs::Order(_)) {
+                            msgs.push(format!("C07 the cancel of resting order #{id} answered {:?}", upd_obs(&r)));
+                        }
+                        left.remove(&rec(target).id);
+                        promised -= executable(target);
+                        cancelled += 1;
+                        cancelled_total += o_tot(target);
+                    }
+                }
             }
             let mut visits = 0u64;
+            // C11: a level restored from a snapshot taken now must trade like the original (churn scenarios: three
+            // orders at most, full fills except for the last order, so no known queue deviation is involved)
+            let restored = if sc.churn.is_empty() {
+                None
+            } else {
+                pricelevel::verif_hooks::set_listing_permutation(Some(0));
+                level.snapshot_to_json().ok().and_then(|t| PriceLevel::from_snapshot_json(&t).ok())
+            };
+            if !sc.churn.is_empty() && restored.is_none() {
+                msgs.push("C10 the level could not be rebuilt from its own snapshot package".into());
+            }
+            let mut original_fills: Vec<Vec<(u128, u64)>> = vec![];
+            let arrival: Vec<u128> = sc.orders.iter().map(|o| rec(o).id).collect();
+            let mut first_visits: Vec<u128> = vec![];
             for q in &sc.takers {
                 let displayed_before = level.visible_quantity() as u128;
                 let res = level.match_order(*q, oid(900), &generator);
                 let m = match_obs(&res);
                 visits += m.fills.len() as u64;
+                if !sc.churn.is_empty() {
+                    original_fills.push(m.fills.clone());
+                    for (mk, _) in &m.fills {
+                        if !first_visits.contains(mk) {
+                            first_visits.push(*mk);
+                        }
+                    }
+                }
                 if m.executed() + m.remaining as u128 != *q as u128 {
                     msgs.push(format!("C02 executed {} + remaining {} != requested {q}", m.executed(), m.remaining));
                 }
@@ -192,20 +266,43 @@ pub fn run(tier: &str) -> SweepOut {
                             m.remaining,
                             short(o)
                         ));
+                        msgs.push(format!(
+                            "C05 an incoming quantity of {} faced {} and consumed nothing of it (the smaller of incoming and displayed quantity, {}, is what the rules give)",
+                            m.remaining,
+                            short(o),
+                            m.remaining.min(o_vis(o))
+                        ));
                     }
                 }
                 msgs.truncate(6);
             }
+            if !sc.churn.is_empty() {
+                // C04: plain orders, each added once, amended at the same price only: they trade in arrival order
+                let expect: Vec<u128> = arrival.iter().copied().filter(|i| first_visits.contains(i)).collect();
+                if first_visits != expect {
+                    msgs.push(format!("C04 the orders arrived as {expect:?} but were first traded as {first_visits:?}"));
+                }
+                if let Some(r) = &restored {
+                    let g2 = UuidGenerator::new(NS);
+                    for (i, q) in sc.takers.iter().enumerate() {
+                        let m = match_obs(&r.match_order(*q, oid(900), &g2));
+                        if m.fills != original_fills[i] {
+                            msgs.push(format!("C11 taker {q}: the original level traded {:?}, the level restored from its snapshot {:?}", original_fills[i], m.fills));
+                            break;
+                        }
+                    }
+                }
+            }
             // C15: the statistics must agree with the transaction stream of these sweeps as well
             let st = level.stats();
-            let executed: u128 = sc.orders.iter().map(|o| o_tot(o)).sum::<u128>() - left.values().sum::<u128>();
+            let executed: u128 = sc.orders.iter().map(|o| o_tot(o)).sum::<u128>() - cancelled_total - left.values().sum::<u128>();
             if st.orders_added() != sc.orders.len()
-                || st.orders_removed() != 0
+                || st.orders_removed() != cancelled
                 || st.quantity_executed() as u128 != executed
                 || st.value_executed() as u128 != executed * LEVEL_PRICE as u128
             {
                 msgs.push(format!(
-                    "C15 statistics (added={}, removed={}, qty={}, value={}) != events (added={}, removed=0, qty={executed}, value={})",
+                    "C15 statistics (added={}, removed={}, qty={}, value={}) != events (added={}, removed={cancelled}, qty={executed}, value={})",
                     st.orders_added(), st.orders_removed(), st.quantity_executed(), st.value_executed(), sc.orders.len(), executed * LEVEL_PRICE as u128
                 ));
             }
@@ -225,6 +322,64 @@ pub fn run(tier: &str) -> SweepOut {
     out
 }
 
+/// C02 "a transaction id not issued before", for generators that have a long life behind them: the generator is
+/// resumed (through its serde form) around every power of ten, at the 32 / 53 / 64-bit limits and at pairs of
+/// counters that differ by 10^9, 10^10, 2^32; each resumed generator serves one match with two fills. All ids issued
+/// for different counter values must differ (and equal the name-based id of their counter value).
+pub fn generator_lifetimes() -> (u64, Vec<String>) {
+    let mut starts: Vec<u64> = vec![0, 7];
+    let mut p: u64 = 10;
+    loop {
+        starts.push(p - 1);
+        if let Some(x) = p.checked_mul(3) {
+            starts.push(x);
+        }
+        match p.checked_mul(10) {
+            Some(x) => p = x,
+            None => break,
+        }
+    }
+    for base in [7u64, 2_000_000_000, 4_000_000_123] {
+        for d in [1_000_000_000u64, 10_000_000_000, 1 << 32, 10_000_000_000_000_000_000] {
+            if let Some(x) = base.checked_add(d) {
+                starts.push(base);
+                starts.push(x);
+            }
+        }
+    }
+    starts.extend([(1u64 << 32) - 1, (1u64 << 53) - 1, u64::MAX - 3]);
+    starts.sort();
+    starts.dedup();
+    let mut issued: HashMap<uuid::Uuid, u64> = HashMap::new();
+    let mut msgs = vec![];
+    let mut n = 0u64;
+    for st in starts {
+        let j = format!("{{\"namespace\":\"{}\",\"counter\":{}}}", NS, st);
+        let Ok(g) = serde_json::from_str::<UuidGenerator>(&j) else {
+            msgs.push(format!("machinery: cannot resume a generator from {j}"));
+            continue;
+        };
+        let level = PriceLevel::new(LEVEL_PRICE);
+        level.add_order(std_order(1, 5, 5));
+        level.add_order(std_order(2, 3, 6));
+        let r = level.match_order(6, oid(900), &g);
+        for (k, t) in r.transactions.as_vec().iter().enumerate() {
+            n += 1;
+            let counter = st.wrapping_add(k as u64);
+            let want = uuid::Uuid::new_v5(&NS, counter.to_string().as_bytes());
+            if t.transaction_id != want && msgs.len() < 6 {
+                msgs.push(format!("C02 the fill served with generator counter {counter} carries transaction id {}, not the generator's id for that counter", t.transaction_id));
+            }
+            if let Some(prev) = issued.insert(t.transaction_id, counter) {
+                if prev != counter && msgs.len() < 6 {
+                    msgs.push(format!("C02 transaction id {} was issued before: for generator counter {prev} and again for counter {counter}", t.transaction_id));
+                }
+            }
+        }
+    }
+    (n, msgs)
+}
+
 /// adds the long sweeps to a report, keeping only the findings that concern `prop`
 pub fn add_to(report: &mut Report, prop: &str, tier: &str) {
     let o = run(tier);
@@ -232,6 +387,13 @@ pub fn add_to(report: &mut Report, prop: &str, tier: &str) {
         if f.contains(&format!(": {prop} ")) || f.contains("panicked") {
             report.violation(f.clone(), json!({"engine": "sweep", "property": prop, "case": f}));
         }
+    }
+    if prop == "C02" {
+        let (n, msgs) = generator_lifetimes();
+        for m in msgs {
+            report.violation(m.clone(), json!({"engine": "sweep", "property": prop, "case": m}));
+        }
+        report.add_cov_u64("transactions_with_resumed_generators", n);
     }
     report.add_cov_u64("long_sweep_scenarios", o.scenarios);
     report.add_cov_u64("long_sweep_maker_visits", o.maker_visits);
